@@ -10,7 +10,7 @@ KIND_NAMES = {0: "Other", 1: "MissingRegistrySymbol", 2: "SymbolAlreadyDefined",
               6: "UnresolvableDependency", 7: "InvalidGate", 8: "InvalidSubmodule", 9: "UnknownGateInConnection",
               10: "UnknownSubmoduleInConnection", 11: "ConnectionIndexOutOfBounds", 12: "UnequalPeers",
               13: "InvalidTypStatement", 14: "GenericPassedAsTypArgument", 15: "AssignedTypDoesNotConformToInterface"}
-REGISTERED = {"M%d" % i for i in range(32)} | {"T%d" % i for i in range(8)}
+REGISTERED = {"M%d" % i for i in range(32)} | {"T%d" % i for i in range(8)} | {"m%d" % i for i in range(8)}
 USIZE_MAX = 2 ** 64 - 1
 
 
